@@ -84,12 +84,17 @@ def run_verus(path, rlimit=None, timeout=900, extra=()):
         cmd += ["--rlimit", str(rlimit)]
     cmd += list(extra)
     t0 = time.time()
+    import signal
+    p = subprocess.Popen(cmd, stdout=subprocess.PIPE, stderr=subprocess.PIPE, text=True, cwd=os.path.dirname(path), start_new_session=True)
     try:
-        p = subprocess.run(cmd, capture_output=True, text=True, timeout=timeout, cwd=os.path.dirname(path))
-        out, err, rc = p.stdout, p.stderr, p.returncode
-    except subprocess.TimeoutExpired as e:
-        return {"cmd": " ".join(cmd), "timeout": True, "wall_s": time.time() - t0, "diags": [], "json": None,
-                "rc": -1, "stderr": (e.stderr or b"").decode("utf-8", "replace")[-2000:] if isinstance(e.stderr, bytes) else str(e.stderr)[-2000:]}
+        out, err = p.communicate(timeout=timeout)
+        rc = p.returncode
+    except subprocess.TimeoutExpired:
+        try:
+            os.killpg(p.pid, signal.SIGKILL)   # verus leaves z3 running otherwise
+        except Exception:
+            pass
+        return {"cmd": " ".join(cmd), "timeout": True, "wall_s": time.time() - t0, "diags": [], "json": None, "rc": -1, "stderr": ""}
     js = None
     try:
         js = json.loads(out[out.index("{"):])
